@@ -243,7 +243,7 @@ Proof.
   induction fuel as [|f IH]; intros v pos x Hv Hx; cbn [sift_up]; cbv zeta.
   - apply set_nth_map.
   - destruct pos as [|p]; [apply set_nth_map|].
-    rewrite get_or_map. rewrite seg_le_sh by (apply get_or_P; assumption).
+    rewrite get_or_map. rewrite seg_le_sh by hpf.
     destruct (seg_le x _).
     + apply set_nth_map.
     + rewrite set_nth_map. apply IH; hpf.
@@ -254,7 +254,7 @@ Proof.
   induction fuel as [|f IH]; intros v pos x Hv Hx; cbn [sift_up]; cbv zeta.
   - hpf.
   - destruct pos as [|p]; [hpf|].
-    destruct (seg_le x _); hpf.
+    destruct (seg_le x _); [hpf | apply IH; hpf].
 Qed.
 
 Lemma heap_push_sh v x : Forall squ32 v -> squ32 x ->
@@ -277,7 +277,7 @@ Proof.
   - reflexivity.
   - rewrite map_length.
     destruct (Nat.leb (2 * pos + 1) (length v - 2) && Nat.leb 2 (length v)).
-    + rewrite !get_or_map. rewrite seg_le_sh by (apply get_or_P; assumption).
+    + rewrite !get_or_map. rewrite seg_le_sh by hpf.
       rewrite set_nth_map. apply IH; hpf.
     + destruct (Nat.eqb (2 * pos + 1) (length v - 1) && Nat.leb 1 (length v)).
       * rewrite get_or_map, set_nth_map. reflexivity.
@@ -297,45 +297,62 @@ Qed.
 Definition opt_pop_sh (o : option (segment * list segment)) :=
   match o with None => None | Some (s, r) => Some (S' s, map S' r) end.
 
+Definition pop_body (init : list segment) (last : segment) : option (segment * list segment) :=
+  match init with
+  | [] => Some (last, [])
+  | _ :: _ =>
+    let '(v1, pos) := sift_down (S (length init)) init O last in
+    Some (hd last init, sift_up (S (length init)) v1 pos last)
+  end.
+Lemma heap_pop_body v :
+  heap_pop v = match rev v with [] => None | last :: rinit => pop_body (rev rinit) last end.
+Proof.
+  unfold heap_pop. destruct (rev v) as [|last rinit]; [reflexivity|].
+  destruct (rev rinit); reflexivity.
+Qed.
+Lemma pop_body_sh init last : Forall squ32 init -> squ32 last ->
+  pop_body (map S' init) (S' last) = opt_pop_sh (pop_body init last).
+Proof.
+  intros Hi Hl. destruct init as [|top rest]; [reflexivity|].
+  unfold pop_body. change (map S' (top :: rest)) with (S' top :: map S' rest) at 1. cbv iota.
+  rewrite map_length. rewrite sift_down_sh by assumption.
+  destruct (sift_down (S (length (top :: rest))) (top :: rest) 0 last) as [v1 pos] eqn:Esd.
+  cbn [fst snd].
+  assert (Hv1 : Forall squ32 v1).
+  { change v1 with (fst (v1, pos)). rewrite <- Esd. apply sift_down_Forall; assumption. }
+  rewrite sift_up_sh by assumption. reflexivity.
+Qed.
 Lemma heap_pop_sh v : Forall squ32 v -> heap_pop (map S' v) = opt_pop_sh (heap_pop v).
 Proof.
-  intros Hv. unfold heap_pop. rewrite <- map_rev.
+  intros Hv. rewrite !heap_pop_body. rewrite <- map_rev.
   assert (Hr : Forall squ32 (rev v)) by (apply Forall_rev; exact Hv).
   destruct (rev v) as [|last rinit]; [reflexivity|]. cbn [map].
   inversion Hr as [|? ? Hl Hri]; subst.
-  rewrite <- map_rev.
-  assert (Hi : Forall squ32 (rev rinit)) by (apply Forall_rev; exact Hri).
-  destruct (rev rinit) as [|top rest] eqn:E; [reflexivity|].
-  rewrite <- E in *. rewrite map_length.
-  assert (E2 : map S' (rev rinit) = S' top :: map S' rest) by (rewrite E; reflexivity).
-  rewrite sift_down_sh by assumption.
-  destruct (sift_down (S (length (rev rinit))) (rev rinit) 0 last) as [v1 pos] eqn:Esd.
-  cbn [fst snd].
-  rewrite E2. rewrite <- E2.
-  assert (Hv1 : Forall squ32 v1).
-  { change v1 with (fst (v1, pos)). rewrite <- Esd. apply sift_down_Forall; assumption. }
-  rewrite sift_up_sh by assumption.
-  rewrite E2. reflexivity.
+  rewrite <- map_rev. apply pop_body_sh; [apply Forall_rev; exact Hri | exact Hl].
 Qed.
 
-Lemma heap_pop_Forall (P : segment -> Prop) v s r : Forall P v -> heap_pop v = Some (s, r) ->
-  P s /\ Forall P r.
+Lemma pop_body_Forall (P : segment -> Prop) init last s r : Forall P init -> P last ->
+  pop_body init last = Some (s, r) -> P s /\ Forall P r.
 Proof.
-  intros Hv. unfold heap_pop.
-  assert (Hr : Forall P (rev v)) by (apply Forall_rev; exact Hv).
-  destruct (rev v) as [|last rinit]; [discriminate|].
-  inversion Hr as [|? ? Hl Hri]; subst.
-  assert (Hi : Forall P (rev rinit)) by (apply Forall_rev; exact Hri).
-  destruct (rev rinit) as [|top rest] eqn:E.
+  intros Hi Hl. destruct init as [|top rest].
   - intros [= <- <-]. auto.
-  - rewrite <- E in *.
-    destruct (sift_down (S (length (rev rinit))) (rev rinit) 0 last) as [v1 pos] eqn:Esd.
+  - unfold pop_body. remember (S (length (top :: rest))) as n eqn:En. clear En.
+    destruct (sift_down n (top :: rest) 0 last) as [v1 pos] eqn:Esd.
     intros [= <- <-].
     assert (Hv1 : Forall P v1).
     { change v1 with (fst (v1, pos)). rewrite <- Esd. apply sift_down_Forall; assumption. }
     split.
-    + rewrite E in Hi. inversion Hi; assumption.
+    + inversion Hi; assumption.
     + apply sift_up_Forall; assumption.
+Qed.
+Lemma heap_pop_Forall (P : segment -> Prop) v s r : Forall P v -> heap_pop v = Some (s, r) ->
+  P s /\ Forall P r.
+Proof.
+  intros Hv. rewrite heap_pop_body.
+  assert (Hr : Forall P (rev v)) by (apply Forall_rev; exact Hv).
+  destruct (rev v) as [|last rinit]; [discriminate|].
+  inversion Hr as [|? ? Hl Hri]; subst.
+  apply pop_body_Forall; [apply Forall_rev; exact Hri | exact Hl].
 Qed.
 
 Lemma heap_peek_sh v : heap_peek (map S' v) = option_map S' (heap_peek v).
